@@ -221,6 +221,75 @@ func C12(run *mon.Run) {
 		}
 		run.Shape("bls|aggregated")
 	}
+	// shaped BLS scalars (powers of two and neighbours at limb / window boundaries, half-empty scalars):
+	// PublicKey() = [d]g2 by the reference, for each of them
+	{
+		shaped := shapedScalars(r)
+		for i, d := range shaped {
+			if run.Quick() && i%4 != int(run.Seed%4+4)%4 && !(d.BitLen() >= 126 && d.BitLen() <= 138) {
+				continue
+			}
+			wg.Add(1)
+			sem <- struct{}{}
+			go func(d *big.Int) {
+				defer wg.Done()
+				defer func() { <-sem }()
+				defer run.Protect("c12 worker")
+				rep := map[string]any{"alg": "BLS", "d": d.Text(16), "bits": d.BitLen()}
+				sk := skFromInt(d)
+				var pk crypto.PublicKey
+				if run.Guard("PublicKey", rep, func() { pk = sk.PublicKey() }) {
+					return
+				}
+				run.Eval(1)
+				run.Count("reference-public-keys", 1)
+				if wp := ref.EncodeG2(ref.E2.Mul(ref.G2Gen, d), cv); !bytes.Equal(pk.Encode(), wp) {
+					run.Violate("C12:public-key:BLS_BLS12381:shaped-scalar", fmt.Sprintf("public key of the %d-bit scalar %s is %x, reference [d]g2 is %x", d.BitLen(), d.Text(16), pk.Encode(), wp), rep)
+				}
+				run.Shape(fmt.Sprintf("bls|shaped|%d", d.BitLen()))
+			}(d)
+		}
+		wg.Wait()
+	}
+	// key generation, decoding and public-key derivation as pure functions under parallel use
+	{
+		var table []func() []byte
+		for _, a := range algs {
+			for i := 0; i < 6; i++ {
+				seed := mon.RandBytes(r, 32+r.IntN(200))
+				alg := a.alg
+				table = append(table, func() []byte {
+					sk, err := crypto.GeneratePrivateKey(alg, seed)
+					if err != nil {
+						return []byte("error:" + err.Error())
+					}
+					return append(sk.Encode(), sk.PublicKey().Encode()...)
+				})
+				d := new(big.Int).Mod(new(big.Int).SetBytes(mon.RandBytes(r, 40)), ref.P256.N)
+				if a.ec == nil {
+					d = randScalar(r)
+				}
+				enc := d.FillBytes(make([]byte, 32))
+				if a.ec != nil || i%2 == 0 {
+					table = append(table, func() []byte {
+						sk, err := crypto.DecodePrivateKey(alg, enc)
+						if err != nil {
+							return []byte("error:" + err.Error())
+						}
+						pk := sk.PublicKey()
+						return append(pk.Encode(), pk.EncodeCompressed()...)
+					})
+				}
+			}
+		}
+		calls, diff := parallelReplay(table, run.Pick(600, 10000), uint64(run.Seed))
+		run.Eval(int(calls))
+		run.Count("parallel-replay.calls", int(calls))
+		if diff != "" {
+			run.Violate("C12:parallel-use-differs", "GeneratePrivateKey / DecodePrivateKey+PublicKey from 16 goroutines at once: "+diff, nil)
+		}
+		run.Shape("parallel-replay")
+	}
 	// unsupported algorithms
 	for _, alg := range []crypto.SigningAlgorithm{0, 4, 9, -3} {
 		var err error
